@@ -266,6 +266,8 @@ var miscFamily = []string{
 	"([+\\-] / 'e')? [0-9]+ / '(' 'x' ')' / [a-z]+",
 	// ranges that end at the largest code point (the sentinel is above it), alone, last in a rule and under repetition
 	"[\\0x80-\\0x10FFFF]", "'a' [\\0x80-\\0x10FFFF]", "([\\0x80-\\0x10FFFF] / [a-y])+ 'z'", "[^\\0x80-\\0x10FFFF] .", "[[\\0xE0-\\0x10FFFF]]*",
+	// first sets assembled from separated ranges and a range that bridges them (what package set has to merge)
+	"([a-f] / [x-z] / [g-w]) '1' / '{' 'x' '}' / [ -@] 'z'", "([x-z] / [a-c] / [b-y])+ '1' / '{' 'x' '}' / [ -@] 'z'", "[a-cx-zb-y] '1' / '{' 'x' '}' / [ -@]+",
 	// captures inside captures (directly and through a rule that captures), with an action reading text afterwards
 	"< 'x' <'y'+> 'z' > {p.n += len(text)}", "< 'a' < 'b' > > {p.n += len(text)} 'c'", "< Rc 'z' > {p.n += len(text)}",
 	"< 'x' (<'y'> / 'w') 'z' > {p.n += len(text)}", "(< 'x' <'y'>? > {p.n += len(text)})+",
